@@ -10,18 +10,20 @@ import json, os
 from concurrent.futures import ThreadPoolExecutor
 from vlib import *
 from replay import run_driver, observer_sig
-from checks.c18 import lmq_cmd, id_cmd
+from checks.c18 import lmq_cmd, id_cmd, ids_cmd
 from checks.c17 import msg_cmd
 
 DRV = ["drv_data.c", "acct.c"]
 # steps whose allocation is the driver's own (it builds the message it then hands to the library)
-DRIVER_ALLOCATES = {("lmq", "put")}
+DRIVER_ALLOCATES = {("lmq", "put"), ("ids", "cycle")}
 # after a failed id allocation the id cursor may have advanced (an id is skipped: ids stay unique and in range, which is all
 # the properties ask for), so the ids handed out afterwards are not compared with the walk
 CURSOR_MAY_ADVANCE = {("id", "alloc")}
 PLAN = [("lmq", "data/Lmq.tla", "Lmq_gen.cfg", lmq_cmd, lambda ia: "init %d" % ia["cap"], 40),
         ("id", "data/IdMap.tla", "IdMap_gen.cfg", id_cmd, lambda ia: "init %d %d" % (ia["lo"], ia["hi"]), 60),
-        ("msg", "data/Msg.tla", "Msg_gen.cfg", msg_cmd, lambda ia: "init %d %d" % (ia["sz"], ia["t"]), 4)]
+        ("msg", "data/Msg.tla", "Msg_gen.cfg", msg_cmd, lambda ia: "init %d %d" % (ia["sz"], ia["t"]), 4),
+        # opening sockets, contexts, dialers and listeners (data/Ids.tla): ENOMEM, nothing created, the same call again succeeds
+        ("ids", "data/Ids.tla", "Ids_gen.cfg", ids_cmd, lambda ia: "init", 12)]
 
 
 def write_blocks(path, blocks):
@@ -58,11 +60,13 @@ def run(v, tier, rng):
     tot_inj = tot_enomem = tot_normal = tot_skipped = 0
     per_obj = {}
     for obj, spec, cfg, to_cmd, init_cmd, maxlen in PLAN:
+        if os.environ.get("VERIF_PART") and os.environ["VERIF_PART"] != obj:
+            continue          # development aid
         g = tlc_edges(spec, cfg, timeout=1500)
         edges = g["edges"]
         v.cov["states"] += g["distinct"]
         v.cov["transitions"] += len(edges)
-        walks, total, covered = cover_walks(g, rng, maxlen=maxlen, limit=None if thorough else 1500)
+        walks, total, covered = cover_walks(g, rng, maxlen=maxlen, limit=(None if thorough else 1500) if obj != "ids" else (600 if thorough else 150))
         cmds = []
         for w in walks:
             s0 = edges[w[0]][0]
@@ -89,7 +93,7 @@ def run(v, tier, rng):
                 if n == 0 or (obj, edges[w[i]][2].get("a")) in DRIVER_ALLOCATES:
                     continue
                 kind = (edges[w[i]][0], json.dumps(act_in(edges[w[i]][2]), sort_keys=True))
-                for k in range(1, min(n, 4) + 1):
+                for k in range(1, min(n, 12 if obj == "ids" else 4) + 1):
                     if not thorough and seen_kind.get((kind, k), 0) >= 1:
                         continue          # quick: each (state, action, k) once
                     seen_kind[(kind, k)] = seen_kind.get((kind, k), 0) + 1
@@ -170,6 +174,42 @@ def run(v, tier, rng):
                                      fail_step=i, k=k, observed=rs))
                 elif tot_inj + n_enomem + n_normal <= 3:
                     v.sample(dict(object=obj, action=a, k=k, result=fr.get("out"), retried=rs[i + 1].get("out") if len(rs) > i + 1 else None))
+        if obj == "lmq":
+            # nni_lmq_init cannot fail: when its array cannot be allocated the queue falls back to the two built-in slots, so a
+            # queue initialised with capacity 3 or 4 under a failing allocation must behave exactly as a queue of capacity 2
+            s2 = [s0 for s0 in g["inits"] if g["init_acts"][str(s0)].get("cap") == 2]
+            w2 = [wid for wid, w in enumerate(walks) if s2 and edges[w[0]][0] == s2[0]][:80 if not thorough else 400]
+            iblocks = [(wid, C) for wid in w2 for C in (3, 4)]
+            fn = os.path.join(rdir, "lmq-initfail.cmd")
+            write_blocks(fn, [(j, ["lmq init %d F1" % C] + cmds[wid][1:]) for j, (wid, C) in enumerate(iblocks)])
+            (rc, lines, err), = run_files(exe, [fn])
+            res, ends = parse(lines)
+            if rc != 0 or not lines or lines[-1] != "Z":
+                osig = observer_sig(err) or ("watchdog" if rc == 124 else "exit-%d" % rc)
+                v.violation("oom.lmq.init:%s" % osig, "lmq init with its allocation failing, then a walk of the capacity-2 graph: driver aborted: %s" % osig,
+                            dict(spec=spec + ":" + cfg, driver="drv_data", cmdfile=fn, observer=osig, stderr=err[-3000:]))
+            n_init = 0
+            for j, (wid, C) in enumerate(iblocks):
+                if j not in ends:
+                    continue
+                w = walks[wid]
+                rs = res.get(j, [])
+                badi = next((i2 for i2 in range(len(w)) if i2 >= len(rs) or canon(rs[i2].get("out")) != edges[w[i2]][2].get("out")
+                             or canon(rs[i2].get("obs")) != edges[w[i2]][3]), None)
+                end = ends[j]
+                if badi is not None:
+                    v.violation("oom.lmq.init:after-fallback", "lmq init %d with its allocation failing must give a queue of capacity 2; step %d (%s) did %s, a capacity-2 queue does %s" % (
+                                C, badi, json.dumps(act_in(edges[w[badi]][2]), sort_keys=True), json.dumps(rs[badi] if badi < len(rs) else None, sort_keys=True)[:300],
+                                json.dumps(dict(out=edges[w[badi]][2].get("out"), obs=edges[w[badi]][3]), sort_keys=True)[:300]),
+                                dict(spec=spec + ":" + cfg, driver="drv_data", cmdfile=fn, block=j, walk=[act_in(edges[e][2]) for e in w], cap=C))
+                elif end.get("leak") or end.get("mism") or end.get("badfree"):
+                    v.violation("oom.lmq.init:balance", "allocator imbalance after a walk on a queue whose init allocation failed: %s" % json.dumps(end),
+                                dict(spec=spec + ":" + cfg, driver="drv_data", cmdfile=fn, block=j))
+                else:
+                    n_init += 1
+            log("oom lmq init: %d walks of the capacity-2 graph on queues whose init allocation failed, %d conform" % (len(iblocks), n_init))
+            n_enomem += n_init
+            blocks = blocks + iblocks
         per_obj[obj] = dict(walks=len(walks), injections=len(blocks), enomem_clean=n_enomem, not_needed=n_normal, unjudged=n_skipped)
         log("oom %s: %d injections: %d clean ENOMEM (state unchanged, retry and rest conform), %d block not needed, %d unjudged" % (
             obj, len(blocks), n_enomem, n_normal, n_skipped))
@@ -179,7 +219,7 @@ def run(v, tier, rng):
         tot_skipped += n_skipped
     if tot_enomem == 0:
         raise Broken("no injected failure was reported as ENOMEM: injection is not working")
-    api = api_part(v, thorough, rdir)
+    api = api_part(v, thorough, rdir) if not os.environ.get("VERIF_PART") else {}
     # the inproc hand-off: the receiver's copy of a shared message cannot be allocated (spec wire/Inproc.tla: the named loss)
     from checks.inproc import run_inproc
     n_inproc = run_inproc(v, tier, mc=False, plans=("fail",))
